@@ -131,6 +131,8 @@ def main():
     # the int64 bias codes exceed the int32 range
     wide_bias = (k % 7 == 5) and not nonfinite
     gg.RSQRT_ANY = nonfinite
+    # every 6th model returns one of its inputs and/or one of its constants as well
+    gg.PASSTHROUGH_PROB, gg.CONST_OUTPUT_PROB = (0.7, 0.5) if k % 6 == 2 else (0.08, 0.0)
     saved_kinds = gg.CONST_KINDS
     if wide_bias:
       gg.CONST_KINDS = ['tiny', 'tiny', 'normal']
@@ -140,6 +142,7 @@ def main():
                               (['FULLY_CONNECTED'] * 3 + ['CONV_2D', 'TANH', 'ADD'] if wide_bias else None))
     finally:
       gg.RSQRT_ANY = False
+      gg.PASSTHROUGH_PROB, gg.CONST_OUTPUT_PROB = 0.08, 0.0
       gg.CONST_KINDS = saved_kinds
     dist['nonfinite_stream'] += int(nonfinite)
     dist['wide_bias_stream'] += int(wide_bias)
@@ -184,6 +187,11 @@ def main():
                                               validation_utils.get_validation_func(metric))
           target = mb
       except Exception as e:  # pylint: disable=broad-except
+        if mode == 'validate' and 'failed to prepare' in str(e) and og.run_interpreter(qbytes)[0] != 'ok':
+          # the quantized model itself cannot be prepared by the interpreter: C01's
+          # business (F27: a constant that is also a graph output), not the validator's
+          dist['target_model_not_runnable'] += 1
+          continue
         if nonfinite and 'Rsqrt is only defined for positive values' in str(e):
           # the integer RSQRT kernel refuses out-of-domain test data: the
           # RUNTIME rejects the input, there is no comparison to check
